@@ -16,6 +16,9 @@ import (
 )
 
 func (vc *VC) nativeModel(st *State, fn *ssa.Function, key string, args []Val, rt types.Type) (Val, bool) {
+	if isRandShuffle(fn) {
+		return vc.nativeShuffle(st, fn, args)
+	}
 	switch key {
 	case "slices.Contains":
 		if len(args) != 2 || args[0].K != KSlice {
